@@ -72,7 +72,7 @@ MANIFEST_ENTRY = {
 }
 
 KEYS = ["data/x", "data/y.parquet", "data2/x", "database", "dat", "metadata/v1.metadata.json", "metadata/v2.metadata.json",
-        "metadata.version-hint.text", "metadata/manifests/m1.avro", "metadata/manifests2", "metadata/inflight/t.inflight", "x"]
+        "metadata.version-hint.text", "metadata/manifests/m1.avro", "metadata/manifests2", "metadata/inflight/t.inflight", "x", "p"]
 DIRS = ["", "data", "data2", "dat", "metadata", "metadata/manifests", "metadata/inflight", "database", "nosuch", "data/x", "meta"]
 CONTENTS = [b"", b"a", b"bc", b"xyz1"]
 PREFIXES = [("", []), ("p", []), ("wh/t1", [("wh/t10/data/y", b"o"), ("wh/t1", b"s"), ("zz", b"")]),
@@ -201,11 +201,12 @@ def run_s3(ops: List[Tuple[Any, ...]], raw_prefix: str, foreign: List[Tuple[str,
 
 
 def spec_oracle(ops: List[Tuple[Any, ...]]) -> List[Tuple[Any, ...]]:
-    """The contract as the property states it, on a dict: exact keys, listings confined to the named directory."""
+    """The contract as the property states it, on a dict: exact keys, listings confined to the named directory.
+    A leading "/" is the library's table-absolute spelling of the same key ("/data/x.parquet")."""
     st: Dict[str, bytes] = {}
     out: List[Tuple[Any, ...]] = []
     for op in ops:
-        n, p = op[0], op[1]
+        n, p = op[0], op[1].lstrip("/")
         if n == "Write":
             st[p] = op[2]
             out.append(("unit",))
@@ -232,7 +233,7 @@ def gen_domain_cases(ctx) -> List[Tuple[str, List[Tuple[str, bytes]], List[Tuple
     # enumerated: every ordered pair of keys x every directory, a fixed probe sequence
     pairs = list(itertools.product(KEYS, KEYS))
     if ctx.tier == "quick":
-        pairs = [p for i, p in enumerate(pairs) if i % 3 == 0]
+        pairs = [p for i, p in enumerate(pairs) if i % 2 == 0]
     for i, (k1, k2) in enumerate(pairs):
         for j, d in enumerate(DIRS):
             if ctx.tier == "quick" and (i + j) % 2:
@@ -242,7 +243,7 @@ def gen_domain_cases(ctx) -> List[Tuple[str, List[Tuple[str, bytes]], List[Tuple
                    ("Delete", k1), ("ListDir", d), ("Exists", k1), ("Size", k2), ("Read", k1), ("Read", k2), ("Mtime", k1)]
             cases.append((pfx, F, ops))
     # random
-    for _ in range(400 if ctx.tier == "quick" else 4000):
+    for _ in range(700 if ctx.tier == "quick" else 4000):
         pfx, F = rng.choice(PREFIXES)
         ops = []
         for _ in range(rng.randint(1, 25)):
@@ -349,6 +350,24 @@ def oracle_backends(ctx, cases) -> Dict[int, Tuple[List, List]]:
                       {"kind": "ops", "prefix": pfx, "foreign": [[k, v.decode('latin-1')] for k, v in F], "ops": ops_json(small), "detail": bad})
     ctx.stats["backend_domain_cases"] = len(cases)
     ctx.stats["backend_domain_cases_violating"] = nviol
+    # the same keys spelled table-absolute ("/data/x"), as manifests spell data file paths
+    nabs = 0
+    for idx, (pfx, F, ops) in enumerate(cases):
+        if idx % 4:
+            continue
+        aops = [(o[0], ("/" + o[1]) if ctx.rng.random() < 0.5 else o[1]) + tuple(o[2:]) for o in ops]
+        nabs += 1
+        ctx.count(1, ("ops-abs", pfx, repr(aops)))
+        bad = judge_domain_case(ctx, pfx, F, aops)
+        if bad:
+            key = f"{bad['which']}:{aops[bad['index']][0]}:leading-slash"
+            if key not in seen_keys:
+                seen_keys.add(key)
+                small = shrink_ops(ctx, pfx, F, aops, lambda c: judge_domain_case(ctx, pfx, F, c) is not None)
+                bad = judge_domain_case(ctx, pfx, F, small) or {}
+                ctx.violation(key, f"prefix={pfx!r} ops={ops_json(small)}: {bad}",
+                              {"kind": "ops", "prefix": pfx, "foreign": [[k, v.decode('latin-1')] for k, v in F], "ops": ops_json(small), "detail": bad})
+    ctx.stats["backend_domain_cases_leading_slash"] = nabs
     return obs
 
 
@@ -992,7 +1011,7 @@ def oracle_s3_faults(ctx) -> None:
 
 # ======================================================================================== driver
 def run(ctx) -> None:
-    ctx.rule = ("backends: enumerated (key pair x directory probe sequences) + random operation sequences (1..25 ops) over 12 keys with "
+    ctx.rule = ("backends: enumerated (key pair x directory probe sequences) + random operation sequences (1..25 ops) over 13 keys with "
                 "sibling-prefix names, 11 directories, 5 S3 prefixes with foreign objects, run on LocalStorageBackend, S3StorageBackend "
                 "over fakes3 and the Coq models; range: all seek/read programs up to a length bound + random ones on sizes 0,1,2,1MiB+1, "
                 "raw and through BufferedReader, against a real local file; retry: all 21844 outcome scripts of length<=7; a case is "
